@@ -19,10 +19,9 @@
 namespace LD.Expected
 
 
-def longScaleLiteral : Nat := 1152921504606846975
+def longScaleValue : Nat := 1152921504606846976
 def initialHashInputBufferSize : Nat := 100
-def preallocatedPrerequisiteChainSize : Nat := 20
-def preallocatedSegmentChainSize : Nat := 20
+def preallocatedChainSizes : List Nat := [20, 20]
 def hashHexDigits : Nat := 15
 
 def operatorConstants : List (String × String) := [("OperatorAfter", "after"), ("OperatorBefore", "before"), ("OperatorContains", "contains"), ("OperatorEndsWith", "endsWith"), ("OperatorGreaterThan", "greaterThan"), ("OperatorGreaterThanOrEqual", "greaterThanOrEqual"), ("OperatorIn", "in"), ("OperatorLessThan", "lessThan"), ("OperatorLessThanOrEqual", "lessThanOrEqual"), ("OperatorMatches", "matches"), ("OperatorSegmentMatch", "segmentMatch"), ("OperatorSemVerEqual", "semVerEqual"), ("OperatorSemVerGreaterThan", "semVerGreaterThan"), ("OperatorSemVerLessThan", "semVerLessThan"), ("OperatorStartsWith", "startsWith")]
